@@ -415,6 +415,8 @@ def explore(sysm, start_hist, max_depth, res, found):
 
 
 SEEDS = [
+    # a 1:1 fork on the first branch of a fan-out fork, and two 1:1 forks in series
+    [['cell', 'c0', 'AND2'], ['fork', 'f0'], ['fork', 'f1'], ['line', ['c', 'c0'], ['f', 'f0']], ['line', ['f', 'f0'], ['f', 'f1']], ['line', ['f', 'f0'], ['c', 'c0']], ['line', ['f', 'f1'], ['c', 'c0']]],
     # non-initial start states: a fork with three branches, a cell with a pin gap, a chain through forks
     [['fork', 'f0'], ['cell', 'c0', 'AND2'], ['cell', 'c2', 'OR2'], ['line', ['f', 'f0'], ['c', 'c0']], ['line', ['f', 'f0'], ['c', 'c2']], ['line', ['f', 'f0'], ['c', 'c0']]],
     [['cell', 'c0', 'AND2'], ['fork', 'f0'], ['fork', 'f1'], ['line', ['c', 'c0'], ['f', 'f0']], ['line', ['f', 'f0'], ['f', 'f1']], ['cell', 'c2', 'OR2'], ['line', ['f', 'f1'], ['c', 'c2']]],
@@ -453,7 +455,7 @@ def tasks(tier, seed):
     frontier += broken
     t = [('sub', cfg['nf'], cfg['nc'], cfg['depth'], h) for h in frontier]
     t.append(('top', cfg['nf'], cfg['nc'], cfg['split']))
-    for s in SEEDS[: (3 if tier == 'thorough' else 2)]:
+    for s in SEEDS[: (4 if tier == 'thorough' else 3)]:
         t.append(('sub', 3, 3, len(s) + cfg['seed_depth'], s))
     return t
 
